@@ -631,6 +631,41 @@ def c13_grid():
             for inp in shp:
                 inp.fault = 'grid:default_beside_type_expression'
                 cases.append(inp)
+    # (E) the name-value shorthand `Debug = name` / `Debug = "name"` (an identifier or a string as the value means
+    #     "rename") on a field that Debug shows positionally: tuple fields without `named_field`, or any fields under
+    #     `named_field = false` (type level for a struct, variant level for a variant).  The only shorthand accepted
+    #     there is a boolean; the name would be dropped.  Controls (accepted, no class): a boolean value, the same
+    #     shorthand on a field shown by name.
+    e = lambda txt: [D.educe(txt)] if txt else []
+    def two(kind, v, at):
+        """two fields of the given kind, the shorthand `Debug = v` on field number `at`"""
+        names = ('a', 'b') if kind == 'named' else (None, None)
+        return [D.Field(names[q], ('u8', 'u16')[q], attrs=e('Debug = %s' % v if q == at else '')) for q in range(2)]
+    off = ['Debug(named_field = false)', 'Debug(named_field(false))', 'Debug(name = N, named_field = false)']
+    for v in ('first', '"first"', '_x', '"x"', '""', 'false', 'true'):
+        for at in (0, 1):
+            shp = []
+            for tm in ['Debug', 'Debug(name = N)', 'Debug(name = false)', 'Debug, Clone', 'PartialEq, Debug(bound(u8: Copy))'] + off:
+                shp.append(D.Input('struct', 'S', attrs=e(tm), fkind='unnamed', fields=two('unnamed', v, at)))
+            shp.append(D.Input('struct', 'S', attrs=e('Debug'), fkind='unnamed', fields=two('unnamed', v, at)[at:at + 1]))
+            for tm in off + ['Hash, ' + off[0]]:
+                shp.append(D.Input('struct', 'S', attrs=e(tm), fkind='named', fields=two('named', v, at)))
+            for tm in ('Debug', 'Debug(name = true)', 'Debug, PartialEq'):
+                for vm in ['', 'Debug(name = V)', 'Debug(name = false)'] + off:
+                    shp.append(D.Input('enum', 'E', attrs=e(tm), variants=[D.Variant('A', 'unit'), D.Variant('B', 'unnamed', fields=two('unnamed', v, at), attrs=e(vm))]))
+                    shp.append(D.Input('enum', 'E', attrs=e(tm), variants=[D.Variant('B', 'unnamed', fields=two('unnamed', v, at)[at:at + 1], attrs=e(vm)), D.Variant('C', 'named', fields=two('named', 'c', 2))]))
+                for vm in off:
+                    shp.append(D.Input('enum', 'E', attrs=e(tm), variants=[D.Variant('A', 'unit'), D.Variant('B', 'named', fields=two('named', v, at), attrs=e(vm))]))
+                    shp.append(D.Input('enum', 'E', attrs=e(tm), variants=[D.Variant('B', 'named', fields=two('named', v, at), attrs=e(vm)), D.Variant('C', 'unnamed', fields=two('unnamed', 'c', 2))]))
+            if at == 0:
+                # controls: the field is shown by name
+                shp.append(D.Input('struct', 'S', attrs=e('Debug'), fkind='named', fields=two('named', v, at)))
+                shp.append(D.Input('struct', 'S', attrs=e('Debug(named_field = true)'), fkind='unnamed', fields=two('unnamed', v, at)))
+                shp.append(D.Input('enum', 'E', attrs=e('Debug'), variants=[D.Variant('B', 'named', fields=two('named', v, at))]))
+                shp.append(D.Input('enum', 'E', attrs=e('Debug'), variants=[D.Variant('B', 'unnamed', fields=two('unnamed', v, at), attrs=e('Debug(named_field = true)'))]))
+            for inp in shp:
+                inp.fault = 'grid:name_on_positional'
+                cases.append(inp)
     for inp in cases:
         inp.notes = {}; inp.traits = []
     return cases
